@@ -902,6 +902,9 @@ func checkC13Fallback(p *Prog, r *Report, ru *Rule) {
 				any, def := false, false
 				eachInstr(sc, func(i ssa.Instruction) {
 					if ret, ok := i.(*ssa.Return); ok && 1 == len(ret.Results) {
+						if defaultEmptyHere(sc, i) {
+							return /* nothing is compiled in on this path */
+						}
 						m, d := mayEmpty(sc, ret.Results[0], i, depth+1)
 						any = any || m
 						def = def || d
